@@ -37,3 +37,117 @@ Print Assumptions C20_held_iff_writing_without_compression.
 (* "returns exactly that buffer" and "never touches it after returning it": the model has one
    buffer per connection by construction; these two clauses are decided on the implementation by
    the instrumented, poisoning pool of the correspondence check (partial). *)
+
+(* ---------------------------------------------------------------------------------------- *)
+(* Bytes reach the transport only while the connection holds the buffer they are in (clause 86
+   of the correspondence check, Cases/C20.v [data_writes_held]).  Proofs: Proofs/PoolWritesP.v. *)
+Require Import WS.Model.Prepared WS.Cases.WriterCase WS.Proofs.PoolWritesP.
+Require WS.Cases.C20.
+
+(* [is_msg_op o]: every op except WriteControl (which writes from its own buffer) and the frame
+   of a prepared message (which writes the PreparedMessage's bytes).
+   [cops_wf ops]: the program does not contain the bare [COp (WPreparedFrame ..)], the internal
+   second half of [CPrepared] (the case format has no tag for it; forced, see
+   [PoolWritesP.raw_prepared_frame_fails]).
+   [appended s s2]: the events logged between s and s2, in program order. *)
+Section ReachC.
+Variables (c:wcfg) (ks:list bytes) (fa:option (nat * fkind)) (ops:list cop).
+Hypothesis Hwf : cops_wf ops = true.
+(* any state reachable by a program of the case format: message writers (valid or not,
+   abandoned, implicitly closed, compressed with arbitrary flate oracles), WriteControl,
+   WritePreparedMessage, any key oracle and fault plan *)
+Let s' := fst (snd (crun c (init_wst c ks fa, []) ops)).
+
+(* one op of the message-writer path: the executable Spec walker accepts the events it appends,
+   and ends with the ownership the model records *)
+Theorem C20_step_writes_while_held : forall o e s2,
+  is_msg_op o = true -> wstep c s' o = (e, s2) ->
+  evs s2 = evs s' ++ appended s' s2 /\
+  WS.Cases.C20.writes_while_held (held s') (appended s' s2) = (true, held s2) /\
+  WS.Cases.C20.held_after (held s') (appended s' s2) = held s2.
+Proof. exact (crun_step_writes_while_held c ks fa ops Hwf). Qed.
+
+(* the same, read off the whole log: every transport write the op appends is preceded by an
+   unmatched Get (a Get with no pool event after it) *)
+Theorem C20_step_writes_after_get : forall o e s2,
+  w_pooled c = true -> is_msg_op o = true -> wstep c s' o = (e, s2) ->
+  forall pre x post, evs s2 = pre ++ x :: post -> (length (evs s') <= length pre)%nat -> is_wr x = true ->
+    exists a b, pre = a ++ TGet :: b /\ pool_evs b = [].
+Proof. exact (crun_step_writes_after_get c ks fa ops Hwf). Qed.
+
+(* a prepared send: the implicit close it performs obeys the rule and accounts for every pool
+   event of the step; the send itself only adds transport events (and is exempt) *)
+Theorem C20_prepared_close_writes_while_held : forall ca p e s2 ca2,
+  cstep c (s', ca) (CPrepared p) = (e, (s2, ca2)) ->
+  let s1 := close_current c (ps_ic p) s' in
+  (cur s' = None -> s1 = s') /\
+  exists own, appended s' s2 = appended s' s1 ++ own /\ tr_only own = true /\
+    WS.Cases.C20.writes_while_held (held s') (appended s' s1) = (true, held s2) /\
+    WS.Cases.C20.held_after (held s') (appended s' s2) = held s2.
+Proof. exact (crun_prepared_writes_while_held c ks fa ops Hwf). Qed.
+End ReachC.
+
+(* whole programs: exactly what the correspondence check evaluates (the ops paired with the
+   cumulative event counts, walked over the final log), on the model's own run *)
+Theorem C20_data_writes_held : forall c ks fa ops, w_pooled c = true -> cops_wf ops = true ->
+  let r := crun c (init_wst c ks fa, []) ops in
+  WS.Cases.C20.data_writes_held false 0 (combine ops (map snd (fst r))) (evs (fst (snd r))) = true.
+Proof. exact crun_data_writes_held. Qed.
+
+(* pooled or not (without a pool the connection owns its buffer from the start) *)
+Theorem C20_data_writes_held_gen : forall c ks fa ops, cops_wf ops = true ->
+  let r := crun c (init_wst c ks fa, []) ops in
+  WS.Cases.C20.data_writes_held (negb (w_pooled c)) 0 (combine ops (map snd (fst r))) (evs (fst (snd r))) = true.
+Proof. exact crun_data_writes_held_gen. Qed.
+
+Theorem C20_model_passes_clause_86 : forall k:wcase,
+  w_pooled (wk_cfg k) = true -> cops_wf (wk_ops k) = true ->
+  WS.Cases.C20.data_writes_held false 0 (combine (wk_ops k) (map snd (fst (run_wmodel k))))
+    (evs (snd (run_wmodel k))) = true.
+Proof. exact run_wmodel_data_writes_held. Qed.
+
+(* plain write programs ([wrun]); [wcounts] = the cumulative event counts *)
+Theorem C20_data_writes_held_wrun : forall c ks fa ops, w_pooled c = true -> no_prepared_frame ops = true ->
+  WS.Cases.C20.data_writes_held false 0 (combine (map COp ops) (wcounts c (init_wst c ks fa) ops))
+    (evs (snd (wrun c (init_wst c ks fa) ops))) = true.
+Proof. exact wrun_data_writes_held. Qed.
+
+(* a program of message-writer ops only: the whole log keeps every transport write inside a
+   Get..Put bracket ([wh_run]: [None] at the first write outside one) *)
+Theorem C20_all_writes_inside : forall c ks fa ops, forallb is_msg_op ops = true ->
+  wh_run (negb (w_pooled c)) (evs (snd (wrun c (init_wst c ks fa) ops))) = Some (held (snd (wrun c (init_wst c ks fa) ops))).
+Proof. exact wrun_all_writes_inside. Qed.
+
+(* [wh_run], the boolean [writes_inside_b] and the declarative [writes_inside] say the same *)
+Theorem C20_writes_inside_forms : forall h es,
+  (writes_inside_b h es = fst (WS.Cases.C20.writes_while_held h es)) /\
+  (writes_inside_b h es = true <-> writes_inside h es) /\
+  (writes_inside h es <-> wh_run h es <> None).
+Proof. intros h es. exact (conj (writes_inside_b_walker h es) (conj (writes_inside_b_iff h es) (writes_inside_iff es h))). Qed.
+
+(* a pooled server connection with a 4-byte buffer: a message written in two fragments, a ping
+   interleaved between them (written while the buffer is held by the open writer: allowed, and
+   exempt anyway), a short write on the second fragment; the buffer goes back after the failure *)
+Example C20_pooled_fragmented_fault :
+  let r := crun pw_cfg (init_wst pw_cfg [] (Some (5%nat, FShort 3)), []) pw_ops in
+  pw_ops = [COp (WNext 2 []); COp (WWrite [1;2;3;4;5;6] []); COp (WControl 9 [9] 0);
+            COp (WWrite [7;8;9;10;11] []); COp (WClose []); COp (WMessage 1 [7] [] [] [])] /\
+  map fst (fst r) = [None; None; None; Some (WTransport false); Some (WTransport false); Some (WTransport false)] /\
+  map snd (fst r) = [1; 3; 5; 8; 8; 8] /\
+  evs (fst (snd r)) =
+    [TGet; TSetDL 0; TWrite [2;4;1;2;3;4]; TSetDL 0; TWrite [137;1;9];
+     TSetDL 0; TWriteFail [0;4;5]; TPut] /\
+  held (fst (snd r)) = false /\
+  WS.Cases.C20.data_writes_held false 0 (combine pw_ops (map snd (fst r))) (evs (fst (snd r))) = true.
+Proof. vm_compute. repeat split. Qed.
+
+Print Assumptions C20_step_writes_while_held.
+Print Assumptions C20_step_writes_after_get.
+Print Assumptions C20_prepared_close_writes_while_held.
+Print Assumptions C20_data_writes_held.
+Print Assumptions C20_data_writes_held_gen.
+Print Assumptions C20_model_passes_clause_86.
+Print Assumptions C20_data_writes_held_wrun.
+Print Assumptions C20_all_writes_inside.
+Print Assumptions C20_writes_inside_forms.
+Print Assumptions C20_pooled_fragmented_fault.
